@@ -834,6 +834,23 @@ class HTTPServer(BaseApp):
         remaining = content_range.stop - offset
         finished = False
 
+        # The body is written in pieces below. A request that is going to be
+        # refused because one of its later pieces conflicts with data written
+        # earlier must not leave its first pieces behind, so look at all of
+        # them before writing any.
+        check_offset = offset
+        while check_offset < content_range.stop:
+            data = request.content.read(min(content_range.stop - check_offset, 65536))
+            if not data:
+                break
+            try:
+                bucket.check_write(check_offset, data)
+            except ConflictingWriteError:
+                request.setResponseCode(http.CONFLICT)
+                return b""
+            check_offset += len(data)
+        request.content.seek(0)
+
         while remaining > 0:
             data = request.content.read(min(remaining, 65536))
             assert data, "uploaded data length doesn't match range"
